@@ -242,7 +242,7 @@ Definition check_cell (t : list row) (c : cell) : bool :=
    ------------------------------------------------------------------------------------------------------------ *)
 Definition hist_case := (registry * list (ev * Z * list sid))%type.
 
-Definition obs_okb (o : out) (code : Z) (obsA : list sid) : bool :=
+Definition obs_okb (lenient : bool) (o : out) (code : Z) (obsA : list sid) : bool :=
   match o with
   | OLife Accepted => code =? 0
   | OLife (Refused EInvalidTransition) => code =? 1
@@ -251,13 +251,40 @@ Definition obs_okb (o : out) (code : Z) (obsA : list sid) : bool :=
   | OConstrain (Ok A) => (code =? 0) && same_set A obsA
   | OConstrain r => (code_of_res r =? code) && is_nil obsA
   | OCaptured => code =? 0
+  | OCall (Ok _) => (code =? 0) || (lenient && (code =? 2))     (* real services may fail by themselves once let through *)
   | OCall r => code_of_res r =? code
   end.
 
-Fixpoint run_hist (w : world) (l : list (ev * Z * list sid)) : bool :=
+Fixpoint run_hist (lenient : bool) (w : world) (l : list (ev * Z * list sid)) : bool :=
   match l with
   | [] => true
-  | (e, code, obsA) :: r => let '(w', o) := step w e in obs_okb o code obsA && run_hist w' r
+  | (e, code, obsA) :: r => let '(w', o) := step w e in obs_okb lenient o code obsA && run_hist lenient w' r
   end.
 
-Definition check_hist (c : hist_case) : bool := run_hist (new_world (mk_manager 0 0) (fst c)) (snd c).
+(* index of the first event on which model and implementation disagree (for the evidence / debugging) *)
+Fixpoint first_bad (lenient : bool) (w : world) (l : list (ev * Z * list sid)) (n : Z) : Z :=
+  match l with
+  | [] => -1
+  | (e, code, obsA) :: r => let '(w', o) := step w e in
+                            if obs_okb lenient o code obsA then first_bad lenient w' r (n + 1) else n
+  end.
+
+Definition check_hist (c : hist_case) : bool := run_hist false (new_world (mk_manager 0 0) (fst c)) (snd c).
+
+(* correspondence 4: the complete recorded history of a real context (phases, moves, every add_constraint attempt, every
+   probe call, in order of occurrence) replayed through the same model *)
+Definition check_hist_real (c : hist_case) : bool := run_hist true (new_world (mk_manager 0 0) (fst c)) (snd c).
+
+(* correspondence 5: one (named service, state) entry of the matrix, against the generated table: how many constrained
+   instances of that service the table holds, in how many of them the state is permitted, and that this is what the
+   property says *)
+Definition matrix_entry := (Z * sid * Z * Z)%type.
+Definition check_matrix_entry (t : list row) (c : matrix_entry) : bool :=
+  let '(svc, s, nrows, nmember) := c in
+  let rows := filter (fun r : row => snd (fst r) =? svc) t in
+  match kind_of svc with
+  | Some k => negb (is_nil rows) && (Z.of_nat (length rows) =? nrows)
+              && (Z.of_nat (length (filter (fun r : row => zmem s (snd r)) rows)) =? nmember)
+              && forallb (fun r : row => Bool.eqb (zmem s (snd r)) (spec k s)) rows
+  | None => false
+  end.
